@@ -16,7 +16,7 @@ ALLOCLEN  (C19)        in the difference tool, a byte-wise comparison of two buf
 PAIRAN    (C18, C19)   a loop over the annotations of one kind is bounded by the count ANfileinfo returned for that kind.
 """
 import re
-from .facts import kind, strip, walk, path, render, int_val, is_int, calls_in, mem_field, base_var
+from .facts import kind, strip, walk, path, render, int_val, is_int, int_name, calls_in, mem_field, base_var
 from .codec import ast_walk, ast_calls, ast_exprs
 from .flow import PathAnalysis, fail_values, classify_ret
 
@@ -595,4 +595,65 @@ def rule_dump_record_major(ctx):
                 ctx.violated("RECMAJOR", key, f.where(c[5]), "VSread is asked for interlace `%s`, not FULL_INTERLACE, but the dump loop walks the buffer record by record: a NO_INTERLACE Vdata is printed "
                              "with its values under the wrong records and fields" % render(c[3][3])[:30])
     ctx.floor("RECMAJOR", 2, n, "(VSread calls in hdp)")
+    return n
+
+
+# ---------------------------------------------------------------------------------------------------------------------
+def _status_bool_tests(f):
+    """(variable, line, negated) for every truth test of a local that is only ever assigned the constants SUCCEED and FAIL"""
+    vals = {}
+    other = set()
+    for _b, _i, _s, x in f.nodes(True):
+        if x[0] == "asg" and kind(strip(x[2])) == "var":
+            v = strip(x[2])[1]
+            if x[1] == "=" and int_name(x[3]) in ("SUCCEED", "FAIL"):
+                vals.setdefault(v, set()).add(int_name(x[3]))
+            else:
+                other.add(v)
+        elif x[0] == "decl":
+            for d in x[1]:
+                if d[2] is not None:
+                    if int_name(d[2]) in ("SUCCEED", "FAIL"):
+                        vals.setdefault(d[0], set()).add(int_name(d[2]))
+                    else:
+                        other.add(d[0])
+        elif x[0] == "addr" and kind(strip(x[1])) == "var":
+            other.add(strip(x[1])[1])
+    cands = {v for v, s in vals.items() if v not in other and s == {"SUCCEED", "FAIL"}}
+    out = []
+    if not cands:
+        return cands, out
+
+    def vis(nn, st):
+        if nn[0] in ("if", "while"):
+            def truth(c):
+                c = strip(c)
+                if kind(c) == "var" and c[1] in cands:
+                    out.append((c[1], nn[4] if nn[0] == "if" else nn[3], False))
+                elif kind(c) == "un" and c[1] == "!" and kind(strip(c[2])) == "var" and strip(c[2])[1] in cands:
+                    out.append((strip(c[2])[1], nn[4] if nn[0] == "if" else nn[3], True))
+                elif kind(c) == "bin" and c[1] in ("&&", "||"):
+                    truth(c[2])
+                    truth(c[3])
+            truth(nn[1])
+        return True
+    ast_walk(f.raw.get("ast"), vis)
+    return cands, out
+
+
+def rule_status_as_boolean(ctx):
+    """STATUSBOOL (C15): SUCCEED is 0 and FAIL is -1.  A local that is only ever assigned these two constants is a status, and
+    testing it as a truth value (`if (v)`) is true exactly for FAIL: the branch meant for 'yes' runs on 'no'.  Such a variable
+    must be compared with SUCCEED or FAIL explicitly."""
+    prog = ctx.prog
+    n = 0
+    for f in prog.lib_funcs():
+        cands, tests = _status_bool_tests(f)
+        n += len(cands)
+        for v, line, neg in tests:
+            ctx.violated("STATUSBOOL", "STATUSBOOL:%s:%s" % (f.name, v), f.where(line), "`%s` is only ever set to SUCCEED (0) or FAIL (-1) and is tested as `if (%s%s)`: the test is true exactly when it is %s" % (
+                v, "!" if neg else "", v, "SUCCEED" if neg else "FAIL"))
+        for v in sorted(cands - {t[0] for t in tests}):
+            ctx.holds("STATUSBOOL", "STATUSBOOL:%s:%s" % (f.name, v), f.where(), "`%s` is compared with SUCCEED/FAIL explicitly wherever it is tested" % v, nontrivial=False)
+    ctx.floor("STATUSBOOL", 20, n, "(locals that only take the values SUCCEED and FAIL)")
     return n
